@@ -25,6 +25,7 @@ def register(reg):
 	reg.contract(K + 'kmer_to_index',
 		raises={'ValueError': 'len(kmer) > 32 or not allnucp(kmer, len(kmer))'},
 		ensures=['result == encp(kmer, len(kmer))', '0 <= result < pow4(len(kmer))'],
+		returns=Int,
 	)
 	# ---- reverse-complement encoder ---------------------------------------------------------------
 	reg.contract(K + 'c_kmer_to_index_rc',
@@ -46,6 +47,7 @@ def register(reg):
 	reg.contract(K + 'kmer_to_index_rc',
 		raises={'ValueError': 'len(kmer) > 32 or not allnucp(kmer, len(kmer))'},
 		ensures=['result == encrcp(kmer, len(kmer))', '0 <= result < pow4(len(kmer))'],
+		returns=Int,
 	)
 	# ---- decoder -----------------------------------------------------------------------------------
 	reg.contract(K + 'c_index_to_kmer',
@@ -69,6 +71,7 @@ def register(reg):
 			'len(result) == k',
 			'forall(j, 0 <= j, j < k, isupnuc(result[j]) and dig(result[j]) == digit(index, k - 1 - j))',
 		],
+		returns=Arr('bytes'),
 	)
 	# ---- reverse complement ---------------------------------------------------------------------------
 	reg.contract(K + 'c_revcomp',
@@ -84,4 +87,5 @@ def register(reg):
 	reg.contract(K + 'revcomp',
 		requires=['len(seq) < 2**31'],
 		ensures=['is_rc(result, seq)'],
+		returns=Arr('bytes'),
 	)
